@@ -28,6 +28,13 @@ type Frame struct {
 	isCut    bool
 	cutHdr   *ssa.BasicBlock
 	loopCnt  map[int]int
+	defers   []deferred
+	noAdv    bool // frame of a deferred call: the caller re-executes RunDefers after it returns
+}
+
+type deferred struct {
+	fn   *ssa.Function
+	args []Val
 }
 
 func (f *Frame) clone() *Frame {
@@ -36,6 +43,7 @@ func (f *Frame) clone() *Frame {
 	for k, v := range f.loc {
 		c.loc[k] = v
 	}
+	c.defers = append([]deferred(nil), f.defers...)
 	if f.loopCnt != nil {
 		c.loopCnt = map[int]int{}
 		for k, v := range f.loopCnt {
@@ -957,7 +965,9 @@ func (x *Exec) step(st *State, f *Frame, ins ssa.Instruction) []*State {
 		if f.retTo != nil {
 			c.loc[f.retTo] = rv
 		}
-		c.ip++
+		if !f.noAdv {
+			c.ip++
+		}
 		return nil
 	case *ssa.Panic:
 		v := x.get(st, f, in.X)
@@ -967,8 +977,30 @@ func (x *Exec) step(st *State, f *Frame, ins ssa.Instruction) []*State {
 	case *ssa.Call:
 		x.call(st, f, in)
 		return nil
+	case *ssa.Defer:
+		cc := in.Common()
+		fnv, ok := cc.Value.(*ssa.Function)
+		if !ok || cc.IsInvoke() {
+			x.fail("unsupported deferred call %s", in)
+		}
+		var args []Val
+		for _, a := range cc.Args {
+			args = append(args, x.get(st, f, a))
+		}
+		f.defers = append(f.defers, deferred{fn: fnv, args: args})
 	case *ssa.RunDefers:
-	case *ssa.Defer, *ssa.Go, *ssa.Select, *ssa.Send, *ssa.MakeMap, *ssa.MakeChan, *ssa.MapUpdate, *ssa.Lookup, *ssa.Range, *ssa.Next:
+		if n := len(f.defers); n > 0 {
+			d := f.defers[n-1]
+			f.defers = f.defers[:n-1]
+			switch d.fn.String() {
+			case "(*sync.Mutex).Unlock", "(*sync.RWMutex).Unlock", "(*sync.RWMutex).RUnlock":
+				return nil // no-op in a sequential run; stay on RunDefers for the next deferred call
+			}
+			x.pushFrame(st, d.fn, d.args, nil)
+			st.frames[len(st.frames)-1].noAdv = true
+			return nil
+		}
+	case *ssa.Go, *ssa.Select, *ssa.Send, *ssa.MakeMap, *ssa.MakeChan, *ssa.MapUpdate, *ssa.Lookup, *ssa.Range, *ssa.Next:
 		x.fail("unsupported instruction %T: %s", ins, ins)
 	default:
 		x.fail("unsupported instruction %T: %s", ins, ins)
